@@ -1350,7 +1350,7 @@ mismatch between values and axes""".format(inferred, self.values.shape)
         meta = {}
         for m in self._metadata():
             try:
-                val = getattr(self, m)
+                val = self.attrs[m] # (not getattr: a key may also be the name of a property, a method or a dimension)
                 if jsonimported: 
                     _ = json.dumps(val)
                 meta[m] = val
